@@ -163,6 +163,10 @@ func (c12Engine) Gen(r *core.Rand, tier string, i int) any {
 	if sc.CustomOpen && r.Chance(1, 6) {
 		sc.Faults = map[string]string{core.Pick(r, []string{"out1", "in1", "out2", "sub/out3"}): core.Pick(r, []string{"enoent", "eacces", "devfull", "readonly", "emfile", "emfile"})}
 	}
+	if _, ok := sc.Faults["sub/out3"]; ok {
+		// the open of a file below a directory that does not exist fails: make sure it is tried
+		sc.Attempts = append(sc.Attempts, c12Attempt{Kind: core.Pick(r, []string{"write", "append"}), Target: "sub/out3", Via: "lit", Where: "begin"})
+	}
 	return sc
 }
 
